@@ -432,6 +432,82 @@ def sections_phase():
     return total, bad
 
 
+def run_router(nroutes, hist):
+    """replay one behaviour of spec/Router.tla on rs.error.create_error_router()"""
+    import rxsci as rs
+    from rx.subject import Subject
+    errors, route = rs.error.create_error_router()
+    dl, raised = [], [0]
+    attached = [None]
+    subj = [Subject() for _ in range(nroutes)]
+    down = [[] for _ in range(nroutes)]
+
+    def sink(j):
+        def on_next(i):
+            if type(i) is rs.OnErrorMux:
+                down[j].append(['e', i.error.args[0]])
+            else:
+                down[j].append(['n', 0])
+        return on_next
+    rdisp = []
+    for j in range(nroutes):
+        rdisp.append(subj[j].pipe(rs.cast_as_mux_observable(), route()).subscribe(
+            on_next=sink(j), on_error=lambda e, j=j: down[j].append(['x', e.args[0]]),
+            on_completed=lambda j=j: down[j].append(['c'])))
+    nerr = 0
+    for h in hist:
+        what = h[0]
+        if what == 'dlsub':
+            try:
+                refused = []
+                d = errors.subscribe(on_next=lambda e: dl.append(['n', e.args[0]]),
+                                     on_error=lambda e: (dl.append(['x', 0]), refused.append(1)),
+                                     on_completed=lambda: dl.append(['c']))
+                if not refused:
+                    attached[0] = d
+            except AssertionError:
+                raised[0] += 1
+        elif what == 'dldispose':
+            attached[0].dispose()
+        else:
+            j = h[1] - 1
+            if what == 'item':
+                subj[j].on_next(rs.OnNextMux((0,), 0))
+            elif what == 'error':
+                nerr += 1
+                subj[j].on_next(rs.OnErrorMux((0,), _Boom(nerr)))
+            elif what == 'complete':
+                subj[j].on_completed()
+            elif what == 'routedispose':
+                rdisp[j].dispose()
+            else:
+                subj[j].on_error(_Boom(99))
+    return dl, down, raised[0]
+
+
+def router_phase():
+    """spec/Router.tla: the dead-letter subscription of a router shared by two routes"""
+    bad = total = 0
+    for (n, steps) in ((2, 5), (1, 6)):
+        r = C.run_tlc('Router', C.cfg(constants=dict(NRoutes=n, MaxSteps=steps),
+                                      invariants=['ExactlyOnce', 'DeadLetterProtocol', 'EmitBehaviour']), workers=4)
+        if r.violated:
+            print('Router model violates %s' % r.violated)
+            return None, None
+        behs = C.extract_printed(r.stdout, 'BEH')
+        norm = lambda x: [list(e) for e in x]
+        for (_, hist, mdl, mdown, mraised) in behs:
+            total += 1
+            real = run_router(n, [list(h) for h in hist])
+            model = (norm(mdl), [norm(d) for d in mdown], mraised)
+            if (real[0], real[1], real[2]) != model:
+                bad += 1
+                if bad <= 5:
+                    print('EXTRA-MISMATCH router hist=%s model=%s real=%s' % (hist, model, real))
+        print('router %d route(s), %d steps: %d states, %d behaviours replayed' % (n, steps, r.distinct, len(behs)))
+    return total, bad
+
+
 def run_topology(order, ops):
     """replay one subscription order of spec/Topology.tla on the real with_store: every
     operator of the model is a harness operator that answers the topology probe with
@@ -567,6 +643,11 @@ def main():
         return 2
     total += t5
     bad += b5
+    t8, b8 = router_phase()
+    if t8 is None:
+        return 2
+    total += t8
+    bad += b8
     t7, b7 = sections_phase()
     if t7 is None:
         return 2
